@@ -75,7 +75,7 @@ impl<'a> Which<'a> {
         self.n_ops()
             + match self {
                 Which::Bm(_) => 3,
-                Which::Core(d) => if d.seekable { 5 } else { 4 },
+                Which::Core(d) => if d.seekable { 6 } else { 4 },
                 Which::Stream(d) => if d.seekable { 2 } else { 1 },
                 Which::Buf(_) => 1,
             }
@@ -91,7 +91,8 @@ impl<'a> Which<'a> {
                 (Which::Core(_), 1) => "write_keystream_block()".into(),
                 (Which::Core(_), 2) => format!("process_with_backend(caller closure, {par} blocks)"),
                 (Which::Core(_), 3) => format!("apply_keystream_blocks_inout({par})"),
-                (Which::Core(_), _) => "set_block_pos(last counter value - 3)".into(),
+                (Which::Core(_), 4) => "set_block_pos(last counter value - 3)".into(),
+                (Which::Core(_), _) => "set_block_pos(last counter value)".into(),
                 (Which::Stream(_), 0) => format!("apply_keystream_inout({})", 2 * cfg.bs + 3),
                 (Which::Stream(_), _) => format!("seek::<u128>({}*2^32 - {})", cfg.bs, cfg.bs + 3),
                 (Which::Buf(_), _) => format!("process({})", 2 * cfg.bs),
@@ -230,6 +231,18 @@ impl Obj {
                         64
                     } else {
                         let _ = c.set_block_pos(u32::MAX as u128 - 3);
+                        32
+                    };
+                    vec![w as u8]
+                }
+                15 => {
+                    // exactly on the last counter value (one block left at most)
+                    let w = if c.set_block_pos(u128::MAX) {
+                        128
+                    } else if c.set_block_pos(u64::MAX as u128) {
+                        64
+                    } else {
+                        let _ = c.set_block_pos(u32::MAX as u128);
                         32
                     };
                     vec![w as u8]
